@@ -1,4 +1,4 @@
 SPECIFICATION Spec
-CONSTANTS MaxDim = 3 EmitJson = TRUE Lambdas = {0, 1, 1000, 1000000} Small3D = FALSE
+CONSTANTS MaxDim = 4 EmitJson = TRUE Lambdas = {0, 1, 1000, 1000000} Small3D = FALSE
 INVARIANTS Check EmitProblem
 CHECK_DEADLOCK FALSE
